@@ -240,6 +240,41 @@ def extract_dispatch(repo):
     if modes[0] != modes[1]:
         raise ExtractError("%s: eval: Or and And treat operand errors differently" % EXPR)  # noqa: F821
     or_and_lenient = modes[0]
+    # --- expression.rs In / If, exec.rs check_exists: switches for notes/fixes/C13-{in-first-error,
+    # if-ebv-error,exists-swallows-refusal}.diff
+    def arm_body(head, what):
+        m = re.search(head, ev)
+        if not m:
+            raise ExtractError("%s: eval: arm %s not found" % (EXPR, what))  # noqa: F821
+        end = _balanced(ev, m.end() - 1, EXPR + ": eval")
+        return re.sub(r"\s+", " ", ev[m.end():end - 1]).strip()
+    b = arm_body(r"\bIn\(lhs, rhs\) => \{", "In")
+    if ".find(|res| res != &Some(false))" in b and "return Some(true.into())" not in b:
+        in_lenient = False
+    elif re.search(r"Some\(true\) => return Some\(true\.into\(\)\), Some\(false\) => \{\},? None => result = None", b) \
+            and "let mut result = Some(false);" in b and ".find(" not in b:
+        in_lenient = True
+    else:
+        raise ExtractError("%s: eval: arm In scans its list in a way the model does not know: %r" % (EXPR, b[:200]))  # noqa: F821
+    b = arm_body(r"\bIf\(c, t, e\) => \{", "If")
+    if re.match(r"if c\.eval\(binding, config, graph_matcher\)\? \.is_truthy\(\) \.unwrap_or\(false\) \{", b):
+        if_ebv_strict = False
+    elif re.match(r"if c\.eval\(binding, config, graph_matcher\)\?\.is_truthy\(\)\? \{", b):
+        if_ebv_strict = True
+    else:
+        raise ExtractError("%s: eval: arm If tests its condition in a way the model does not know: %r" % (EXPR, b[:160]))  # noqa: F821
+    b = arm_body(r"\bExists\(graph_pattern\) => \{", "Exists")
+    if "Err(_) => false" not in b or "exec_state.select(graph_pattern, graph_matcher, Some(binding))" not in b:
+        raise ExtractError("%s: eval: arm Exists changed: %r" % (EXPR, b[:200]))  # noqa: F821
+    n_calls = len(re.findall(r"self\.check_exists\(", text))
+    if "fn check_exists" not in text and n_calls == 0:
+        exists_checked = False
+    elif "fn check_exists" in text and re.search(r"Exists\(pattern\) => self\.select\(pattern, &\[\], None\)\.map\(\|_\| \(\)\)", text) \
+            and re.search(r"fn filter\([^{]*\{\s*self\.check_exists\(expression\)\?;", text) \
+            and re.search(r"fn extend\([^{]*\{\s*self\.check_exists\(expression\)\?;", text):
+        exists_checked = True
+    else:
+        raise ExtractError("%s: EXISTS patterns are pre-checked in a way the model does not know" % EXEC)  # noqa: F821
     out = [HEADER,  # noqa: F821
            "namespace SophiaModel.Gen.SparqlDispatch\n\n",
            "inductive Action\n  | handler (name : String)\n  | notImplemented (what : String)\n  deriving Repr, DecidableEq, Inhabited\n\n",
@@ -257,9 +292,19 @@ def extract_dispatch(repo):
            "/-- `ExecState::graph` returns no solution for `GRAPH ?g` over a dataset without named graphs\n"
            "(`true` once notes/fixes/C13-graph-var-no-named-graph.diff is applied) -/\n",
            "def graphEmptyFixed : Bool := %s\n\n" % ("true" if graph_empty_fixed else "false"),
+           "/-- `In` of `ArcExpression::eval` is `(x = e1) || ...` with the error semantics of `||` (`true` once\n"
+           "notes/fixes/C13-in-first-error.diff is applied) instead of stopping at the first error -/\n",
+           "def inLenient : Bool := %s\n\n" % ("true" if in_lenient else "false"),
+           "/-- `If` raises an error when the effective boolean value of its condition is an error (`true` once\n"
+           "notes/fixes/C13-if-ebv-error.diff is applied) instead of taking the else branch -/\n",
+           "def ifEbvStrict : Bool := %s\n\n" % ("true" if if_ebv_strict else "false"),
+           "/-- `ExecState::{filter, extend, order_by}` probe the EXISTS patterns of their expression and return\n"
+           "their refusal (`true` once notes/fixes/C13-exists-swallows-refusal.diff is applied) -/\n",
+           "def existsChecked : Bool := %s\n\n" % ("true" if exists_checked else "false"),
            "end SophiaModel.Gen.SparqlDispatch\n"]
     return "".join(out), {"select": table, "query": qtable, "from_named": from_named,
-                          "or_and_lenient": or_and_lenient, "graph_empty_fixed": graph_empty_fixed}
+                          "or_and_lenient": or_and_lenient, "graph_empty_fixed": graph_empty_fixed,
+                          "in_lenient": in_lenient, "if_ebv_strict": if_ebv_strict, "exists_checked": exists_checked}
 
 
 EXTRACTORS = {"sparql_dispatch": ("SparqlDispatch.lean", extract_dispatch)}
